@@ -278,6 +278,23 @@ def rearrange(t, pattern, **sizes):
     return Tensor(a.reshape(final).copy(), t.dtype)
 
 
+class _NoGrad:
+    """context manager + decorator; the probe does not zero tangents here (framework: it does)"""
+
+    def __call__(self, f=None):
+        return f if f is not None else self
+
+    def __enter__(self):
+        return self
+
+    def __exit__(self, *a):
+        return False
+
+
+st.no_grad = lambda: _NoGrad()
+st.inference_mode = lambda *a, **k: _NoGrad()
+
+
 def install(load):
     s2.install(load)
     e = load("einops")
